@@ -25,7 +25,8 @@ THEOREMS = [
 RULE = ("random scripts of 2..14 calls (schedule/schedule_relative/schedule_absolute of action trees of depth <=3 that schedule, "
         "cancel, sleep and stop; cancel; advance_to around the clock; advance_by; sleep; start; stop) on real TestScheduler, "
         "VirtualTimeScheduler and HistoricalScheduler (datetime clock), small time alphabet so equal due times are common; plus "
-        "PriorityQueue op scripts; compared with the Lean model on executed-action log (id, clock at run), per-call outcome, "
+        "PriorityQueue op scripts; plus multi-start scripts (2..4 start() rounds of 40..99 — sometimes >101 — actions at one unchanged "
+        "instant, rounds ended by draining or by an action calling stop()); compared with the Lean model on executed-action log (id, clock at run), per-call outcome, "
         "final clock, enabled flag, pending count. non-trivial = at least two different call kinds and at least one action ran")
 ASSUMPTIONS = ["single-threaded use of the scheduler (what the property quantifies over)",
                "integer times (ticks / microseconds); non-integral float times are outside the model",
@@ -71,6 +72,36 @@ def gen_script(rng, kind=None, raise_p=0.02):
             "handler_true": [], "handler_default": False}
 
 
+def gen_multi_start(rng, kind=None):
+    """several start() rounds (separated by the queue draining, or by an action calling stop()) that each run 40..99 actions
+    at one unchanged instant (sometimes >101, so that the spin valve legitimately fires): per-call state of start() such as
+    the spin counter must not leak from one round to the next"""
+    kind = kind or rng.choice(["test", "vts", "hist"])
+    unit = 500 if kind == "hist" else 1
+    c0 = unit * rng.choice([0, 0, 5])
+    at = c0 + unit * rng.choice([0, 0, 10])   # the shared instant
+    ops, nid = [], 1
+    first = True
+    for _ in range(rng.choice([2, 2, 3, 4])):
+        n = rng.choice([40, 55, 60, 60, 75, 99, 99]) if rng.random() < 0.85 else rng.choice([102, 115])
+        stop_at = rng.randrange(n) if rng.random() < 0.3 else None   # one action of the round calls stop(): the round ends early
+        for j in range(n):
+            node = {"id": nid, "steps": [["stop"]] if j == stop_at else [], "raise": None}
+            if first or rng.random() < 0.3:
+                ops.append(["sched", False, "abs", at, node])
+            else:
+                ops.append(["sched", False, rng.choice(["imm", "rel"]), 0, node])   # due at the current clock == `at` after round 1
+            nid += 1
+        if rng.random() < 0.2 and nid > 3:
+            ops.append(["cancel", rng.randrange(1, nid)])
+        ops.append(["start"])
+        if stop_at is not None:
+            ops.append(["start"])   # finish the interrupted round
+        first = False
+    return {"op": "vts_script", "sched": kind, "clock": c0, "bump": 1000 if kind == "hist" else 1, "ops": ops,
+            "handler_true": [], "handler_default": False}
+
+
 def gen_pq(rng):
     ops = []
     live = []  # shadow multiset of priorities, to aim `remove` at unambiguous targets
@@ -110,6 +141,8 @@ def cases(rng, tier):
         yield gen_script(rng)
     for _ in range(fw.tier_scale(tier, 400, 4000)):
         yield gen_pq(rng)
+    for _ in range(fw.tier_scale(tier, 90, 900)):
+        yield gen_multi_start(rng)
 
 
 def model_request(case):
@@ -226,6 +259,7 @@ def oracle(case, out):
     clock = None
     cur = None        # current top-level op record
     spin_possible = False
+    ncancel = 0       # cancel events on pending items so far: an upper bound on the silently skipped (dequeued cancelled) items
     for ev in out["events"]:
         k = ev[0]
         if k == "op":
@@ -233,7 +267,8 @@ def oracle(case, out):
             if clock is not None and c < clock:
                 return f"clock moved backwards: {clock} -> {c} before call {i}"
             clock = c
-            cur = {"i": i, "name": name, "arg": arg, "c0": c, "enabled": en, "ran": [], "stopped": False, "slept": False}
+            cur = {"i": i, "name": name, "arg": arg, "c0": c, "enabled": en, "ran": [], "stopped": False, "slept": False,
+                   "spin": 0}  # actions run by THIS call since the clock last moved to a due time
             spin_possible = name == "start"
         elif k == "sched":
             _, nid, due, seqno = ev
@@ -242,6 +277,7 @@ def oracle(case, out):
         elif k == "cancel":
             if ev[1] in pending:
                 cancelled.add(ev[1])
+                ncancel += 1
         elif k == "stop":
             if cur is not None:
                 cur["stopped"] = True
@@ -255,8 +291,19 @@ def oracle(case, out):
             if at < clock:
                 return f"clock moved backwards: {clock} -> {at} at action {nid}"
             exp = max(clock, due)
-            if at != exp and not (spin_possible and at == max(clock + bump, due)):
-                return f"action {nid} (due {due}) ran at clock {at}; clock before was {clock}, expected {exp}"
+            if at != exp:
+                if not (spin_possible and at == max(clock + bump, due)):
+                    return f"action {nid} (due {due}) ran at clock {at}; clock before was {clock}, expected {exp}"
+                # the only licence to run an action away from max(clock, due) is start()'s spin valve: more than MAX_SPINNING (100)
+                # consecutive items handled by THIS start() call without the clock moving to a due time.  Items handled = actions
+                # run + cancelled items skipped; the latter are invisible, so they are bounded by the cancel events seen so far.
+                if cur is not None and cur["spin"] + ncancel < 101:
+                    return (f"action {nid} (due {due}) ran at clock {at} instead of {exp}: the clock was bumped although this start() "
+                            f"had run only {cur['spin']} actions at the unchanged instant {clock}")
+                if cur is not None:
+                    cur["spin"] = 0
+            elif due > clock and cur is not None:
+                cur["spin"] = 0
             for oid, (odue, oseq) in pending.items():
                 if oid in cancelled:
                     continue
@@ -265,6 +312,7 @@ def oracle(case, out):
             if cur is None or cur["name"] not in ("start", "advance_to", "advance_by"):
                 return f"action {nid} ran during {cur and cur['name']}"
             cur["ran"].append((nid, due))
+            cur["spin"] += 1
             clock = at
         elif k == "end":
             if ev[2] < clock:
